@@ -5,9 +5,11 @@ import (
 	"crypto/ecdsa"
 	"crypto/elliptic"
 	"crypto/rand"
+	"crypto/sha512"
 	"crypto/tls"
 	"crypto/x509"
 	"crypto/x509/pkix"
+	"encoding/hex"
 	"fmt"
 	"math/big"
 	"net"
@@ -370,5 +372,118 @@ func TestTLSIdentity(t *testing.T) {
 		vs := CheckTLS(c)
 		R.Seen("TestTLSIdentity", c, true, "rpc:"+c.Method, fmt.Sprintf("real:%v", c.Real))
 		R.Report(rt, "TestTLSIdentity", c, vs)
+	})
+}
+
+// ---------------------------------------------------------------------------------------------
+// several TLS peers through ONE connection wrapper / extractor (as one acra process has)
+
+type tlsWorldT struct {
+	wrapper   *network.TLSConnectionWrapper
+	ext       network.TLSClientIDExtractor
+	clientCfg []*tls.Config
+	expected  [][]byte // identity expected for each certificate (computed independently)
+}
+
+var (
+	multiOnce sync.Once
+	multi     *tlsWorldT
+	multiErr  error
+)
+
+func getMulti() (*tlsWorldT, error) {
+	multiOnce.Do(func() {
+		ca, caKey, _ := makeCert("verif-ca-multi", nil, nil, true)
+		_, srvKey, srvDER := makeCert("localhost", ca, caKey, false)
+		pool := x509.NewCertPool()
+		pool.AddCert(ca)
+		serverCfg := &tls.Config{Certificates: []tls.Certificate{{Certificate: [][]byte{srvDER}, PrivateKey: srvKey}}, ClientCAs: pool, ClientAuth: tls.RequireAndVerifyClientCert, MinVersion: tls.VersionTLS12}
+		w := &tlsWorldT{}
+		for i := 0; i < 4; i++ {
+			cert, key, der := makeCert(fmt.Sprintf("tls-client-%d", i), ca, caKey, false)
+			w.clientCfg = append(w.clientCfg, &tls.Config{Certificates: []tls.Certificate{{Certificate: [][]byte{der}, PrivateKey: key}}, RootCAs: pool, ServerName: "localhost", MinVersion: tls.VersionTLS12})
+			// documented derivation: lower-case hex of SHA-512 of the certificate's distinguished name
+			sum := sha512.Sum512([]byte(cert.Subject.String()))
+			w.expected = append(w.expected, []byte(hex.EncodeToString(sum[:])))
+		}
+		ext, err := network.NewDefaultTLSClientIDExtractor()
+		if err != nil {
+			multiErr = err
+			return
+		}
+		w.ext = ext
+		w.wrapper, multiErr = network.NewTLSAuthenticationConnectionWrapper(true, w.clientCfg[0], serverCfg, ext)
+		multi = w
+	})
+	return multi, multiErr
+}
+
+func (w *tlsWorldT) handshake(cert int) (credentials.AuthInfo, error) {
+	cliEnd, srvEnd := net.Pipe()
+	done := make(chan error, 1)
+	go func() {
+		c := tls.Client(cliEnd, w.clientCfg[cert].Clone())
+		c.SetDeadline(time.Now().Add(10 * time.Second))
+		done <- c.Handshake()
+	}()
+	srvEnd.SetDeadline(time.Now().Add(10 * time.Second))
+	_, auth, err := w.wrapper.ServerHandshake(srvEnd)
+	if err != nil {
+		return nil, err
+	}
+	if herr := <-done; herr != nil {
+		return nil, herr
+	}
+	return auth, nil
+}
+
+// PeersCase: a sequence of TLS handshakes (certificate index each); all connections stay open.
+type PeersCase struct {
+	Certs []int `json:"certs"`
+}
+
+// CheckPeers: every open connection keeps the identity of ITS certificate, whatever connects later.
+func CheckPeers(c PeersCase) (vs hx.Vs) {
+	w, err := getMulti()
+	if err != nil {
+		vs.Add("harness:tls", "%v", err)
+		return
+	}
+	var auths []credentials.AuthInfo
+	for _, ci := range c.Certs {
+		a, err := w.handshake(ci % len(w.clientCfg))
+		if err != nil {
+			vs.Add("harness:handshake", "%v", err)
+			return
+		}
+		auths = append(auths, a)
+		// after every new connection, all connections opened so far still carry their own identity
+		for j, aj := range auths {
+			id, err := network.GetClientIDFromAuthInfo(aj, w.ext)
+			want := w.expected[c.Certs[j]%len(w.clientCfg)]
+			if err != nil {
+				vs.Add("tls-identity-lost", "connection %d lost its identity after %d handshakes: %v", j, len(auths), err)
+				continue
+			}
+			if string(id) != string(want) {
+				vs.Add("tls-identity-changed-by-later-connection", "connection %d (certificate %d) is identified as %.16s… after a later handshake with certificate %d; its own identity is %.16s…", j, c.Certs[j], id, ci, want)
+			}
+		}
+	}
+	return
+}
+
+func TestTLSPeers(t *testing.T) {
+	R.Rule("TestTLSPeers", "2-6 TLS handshakes with 4 client certificates through one TLSConnectionWrapper/extractor (what one acra process has), all connections kept open; after every handshake each open connection must still be identified by the identity derived from ITS certificate (computed independently: hex SHA-512 of the DN); non-trivial = at least two different certificates")
+	hx.Checks(40, 400)
+	rapid.Check(t, func(rt *rapid.T) {
+		c := PeersCase{Certs: rapid.SliceOfN(rapid.IntRange(0, 3), 2, 6).Draw(rt, "certs")}
+		distinct := map[int]bool{}
+		for _, x := range c.Certs {
+			distinct[x] = true
+		}
+		vs := CheckPeers(c)
+		R.Seen("TestTLSPeers", c, len(distinct) > 1, fmt.Sprintf("certs:%d", len(distinct)))
+		R.Report(rt, "TestTLSPeers", c, vs)
 	})
 }
